@@ -41,6 +41,8 @@ struct State {
   uint64_t live_blocks = 0;
   uint64_t foreign = 0, double_free = 0, exhausted = 0;
   size_t single_cap = (size_t)1 << 24;
+  int64_t fail_at = -1;            // refuse request number k (counted from the last reset_counters)
+  uint64_t refused_fault = 0;
   // libc-bypass detection
   volatile int in_lib = 0;         // >0 while a libcbor call is in progress
   uint64_t libc_mallocs_in_lib = 0, libc_frees_in_lib = 0;
@@ -72,10 +74,13 @@ static inline bool raw_free(void* p) {
   memset(p, 0xDD, h->size);
   return true;
 }
-static inline void* amalloc(size_t n) { g.requests++; g.mallocs++; return raw_alloc(n); }
+static inline bool faulted() { if (g.fail_at >= 0 && (uint64_t)g.fail_at == g.requests) { g.refused_fault++; return true; } return false; }
+static inline void* amalloc(size_t n) { bool f = faulted(); g.requests++; g.mallocs++; return f ? nullptr : raw_alloc(n); }
 static inline void afree(void* p) { g.frees++; if (p) raw_free(p); }
 static inline void* arealloc(void* p, size_t n) {
+  bool f = faulted();
   g.requests++; g.reallocs++;
+  if (f) return nullptr;
   if (!p) return raw_alloc(n);
   Hdr* h;
   if (!known(p, &h)) { g.foreign++; return nullptr; }
@@ -87,7 +92,7 @@ static inline void* arealloc(void* p, size_t n) {
   return q;
 }
 static inline void reset_counters() {
-  g.requests = g.mallocs = g.reallocs = g.frees = 0; g.foreign = g.double_free = g.exhausted = 0;
+  g.requests = g.mallocs = g.reallocs = g.frees = 0; g.foreign = g.double_free = g.exhausted = 0; g.refused_fault = 0; g.fail_at = -1;
   g.libc_mallocs_in_lib = g.libc_frees_in_lib = 0;
 }
 // Forget everything (between cases).
